@@ -122,19 +122,6 @@ func (t *KernMethod) TransferGovernTokens(ctx contract.KContext) (*contract.Resp
 	}
 	senderBalance.TotalBalance.Sub(senderBalance.TotalBalance, amount)
 
-	// 设置receiver余额
-	receiverBalance := utils.NewGovernTokenBalance()
-	receiverBalance.TotalBalance.Set(amount)
-
-	// 查询receiver余额并更新
-	receiverKey := utils.MakeAccountBalanceKey(string(receiverBuf))
-	receiverBalanceBuf, err := ctx.Get(utils.GetGovernTokenBucket(), []byte(receiverKey))
-	if err == nil {
-		receiverBalanceOld := &utils.GovernTokenBalance{}
-		json.Unmarshal(receiverBalanceBuf, receiverBalanceOld)
-		receiverBalance.TotalBalance.Add(receiverBalance.TotalBalance, receiverBalanceOld.TotalBalance)
-	}
-
 	// 更新sender余额
 	senderBalanceBuf, _ := json.Marshal(senderBalance)
 	senderKey := utils.MakeAccountBalanceKey(sender)
@@ -142,6 +129,20 @@ func (t *KernMethod) TransferGovernTokens(ctx contract.KContext) (*contract.Resp
 	if err != nil {
 		return nil, fmt.Errorf("transfer gov tokens failed, update sender's balance")
 	}
+
+	// 查询receiver余额并更新. The receiver's record is read after the sender's has
+	// been written (a transfer to oneself then credits the debited record) and its
+	// locked balances are kept.
+	receiverBalance := utils.NewGovernTokenBalance()
+	receiverKey := utils.MakeAccountBalanceKey(string(receiverBuf))
+	receiverBalanceBuf, err := ctx.Get(utils.GetGovernTokenBucket(), []byte(receiverKey))
+	if err == nil {
+		err = json.Unmarshal(receiverBalanceBuf, receiverBalance)
+		if err != nil {
+			return nil, fmt.Errorf("transfer gov tokens failed, parse receiver balance error")
+		}
+	}
+	receiverBalance.TotalBalance.Add(receiverBalance.TotalBalance, amount)
 
 	// 更新receiver余额
 	receiverBalanceBuf, _ = json.Marshal(receiverBalance)
